@@ -91,6 +91,7 @@ type c11Sess struct {
 	splitLen int
 	pending  []c11Call
 	n        int
+	lastCall string
 }
 
 func c11Open(c *Ctx, splitLen int) *c11Sess {
@@ -123,6 +124,8 @@ func (cs *c11Sess) call(c *Ctx, caseID string, m *c11Method, text, class string)
 	}
 	text = c11Effective(m, text)
 	cs.pending = append(cs.pending, c11Call{caseID, m, t, text, class})
+	cs.lastCall = fmt.Sprintf("%s(%q, %d bytes: %q) SplitLen=%d", m.Name, t, len(text), clipS(text), cs.splitLen)
+	rig.CallTick()
 	m.Call(cs.s.Conn, t, text)
 	if len(cs.pending) >= 1500 {
 		return cs.flush(c)
@@ -305,7 +308,10 @@ func c11Text(r interface{ Intn(int) int }, eff int) (string, string) {
 	if n > 6000 {
 		n = 6000
 	}
-	switch r.Intn(9) {
+	switch r.Intn(10) {
+	case 9: // one byte class only: UTF-8 continuation bytes, 0xFF, NUL, DEL ... (nothing a rune-aware cut could hold on to)
+		b := []string{"\x80\xbf", "\xff", "\x00", "\x7f", "\xbf", "\xc3"}[r.Intn(6)]
+		return strings.Repeat(b, n/len(b)+1)[:n], "single-byte-class"
 	case 0:
 		return fill(n, "abcdefghij"), "nospace"
 	case 1:
